@@ -91,3 +91,23 @@ spec fn lookup_ok(r: ZoneResult, node: ZoneRecords, qname: DomainName, qtype: Qu
         }
     }
 }
+
+// corollary used (as an assumption) by unit `local`: a CNAME result is the CNAME record of the query name together with its target
+proof fn lemma_cname_result_consistent(r: ZoneResult, node: ZoneRecords, qname: DomainName, qtype: QueryType, rel: Seq<Label>, at_apex: bool)
+    requires lookup_ok(r, node, qname, qtype, rel, at_apex), tree_wf(node), r is CNAME
+    ensures r->rr.rtype_with_data is CNAME, r->rr.rtype_with_data->CNAME_cname == r->cname, r->rr.name == qname
+    decreases rel.len()
+{
+    lemma_tree_wf_root(node);
+    if rel.len() == 0 {
+        assert(spec_rtype_of(node.this@[RecordType::CNAME]@[0].rtype_with_data) == RecordType::CNAME);
+    } else {
+        let l = rel.last();
+        if node.children@.contains_key(l) {
+            lemma_tree_wf_child(node, l);
+            lemma_cname_result_consistent(r, node.children@[l], qname, qtype, rel.drop_last(), false);
+        } else if node.wildcards is Some {
+            assert(spec_rtype_of(node.wildcards->Some_0@[RecordType::CNAME]@[0].rtype_with_data) == RecordType::CNAME);
+        }
+    }
+}
